@@ -67,7 +67,7 @@ class Gen:
             return (self.w(["ROW_NUMBER()", "SUM(a)", "RANK()", "lag(a, 1)", "max(b)"], ["s.f(a)"]) + " " + self.kw("OVER") + " ("
                     + self.ch(["", self.kw("PARTITION") + " BY " + self.expr(d + 1) + self.ch(["", ", " + self.expr(d + 1)]) + " "])
                     + self.ch(["", self.kw("ORDER") + " BY " + self.expr(d + 1) + self.ch(["", " DESC", " asc"])])
-                    + self.w(["", "", " ROWS BETWEEN UNBOUNDED PRECEDING AND CURRENT ROW", " ROWS BETWEEN 1 PRECEDING AND 2 FOLLOWING",
+                    + self.w(["", "", " ROWS BETWEEN UNBOUNDED PRECEDING AND CURRENT ROW", " ROWS BETWEEN 1 PRECEDING AND 2 FOLLOWING", " ROWS BETWEEN 0 PRECEDING AND 0 FOLLOWING", " ROWS BETWEEN 2 PRECEDING AND 0 FOLLOWING", " ROWS BETWEEN 0 PRECEDING AND CURRENT ROW",
                               " rows between current row and unbounded following"], [" ROWS BETWEEN x PRECEDING AND 1 FOLLOWING", " ROWS 1", " RANGE BETWEEN 1 PRECEDING AND CURRENT ROW"]) + ")")
         if x < 76: return self.ch(["*", "t.*", "`t`.*"])
         if x < 79 and (self.d == "HIVE" or self.wild): return self.nm() + "[" + self.expr(d + 1) + "]"
@@ -224,7 +224,7 @@ class Gen:
                     + self.w(["VALUES (1, 'x'), (2, NULL)", "VALUES (1, 2)", "values (1 + 2, f(3)), (a, b)", self.query(), "VALUES (1, 2) (3, 4)", "VALUES (" + self.expr(1) + ")"], ["VALUES", "(SELECT 1)", "VALUES (1,,2)", "VALUES (1 2)"]))
         if x < 62:
             return ((self.ch(["", "", "", "WITH w AS (SELECT 1) "])) + "UPDATE " + self.ch(TABLES) + " SET a = " + self.expr() + self.ch(["", ", b = " + self.cond(), ", `c` = 1"])
-                    + self.ch(["", " WHERE " + self.cond()]) + self.ch(["", " ORDER BY a"]) + self.ch(["", " LIMIT 1, 3", " LIMIT 5"]))
+                    + self.ch(["", " WHERE " + self.cond()]) + self.ch(["", " ORDER BY a"]) + self.ch(["", " LIMIT 1, 3", " LIMIT 5", " LIMIT 0", " LIMIT 0, 0"]))
         if x < 67: return "DELETE FROM " + self.ch(TABLES) + self.ch(["", " WHERE " + self.cond()]) + self.ch(["", " ORDER BY a DESC"]) + self.ch(["", " LIMIT 1, 3", " limit 2"])
         if x < 78: return self.create_table()
         if x < 84: return self.alter()
